@@ -330,10 +330,10 @@ def run (case impl : String) : String × String :=
         let judge (o' : Obs) : Bool :=
           if pclose.isSome then
             o'.closed && sortW o'.w == sortW o.w && o'.up == o.up
-          else if proto == "gnet" then Gnet.spec gc o
-          else if pp then ppSpec sent o
-          else if wave then specS max (waveDone k1) sent o
-          else spec max sent o
+          else if proto == "gnet" then Gnet.spec gc o'
+          else if pp then ppSpec sent o'
+          else if wave then specS max (waveDone k1) sent o'
+          else spec max sent o'
         let ms := s!"w={strOfW false o.w} up={strOfNats o.up} closed={strOfBool o.closed}"
         let itoks := words impl
         let v := match (kvGet itoks "w").bind parseW, (kvGet itoks "up").bind parseNats,
